@@ -103,6 +103,7 @@ type Exec struct {
 	permIdx       map[int]bool
 	curLoopClk    *Term
 	evalTerms     []*Term
+	ptrofSeen     map[int]bool
 	epoch         int
 	arrEmbElem    map[string]bool
 	ifaceUsedCon  map[string]int
@@ -1006,6 +1007,13 @@ func (x *Exec) finish(fr *Frame) {
 			x.refinesPost(fr, rs.st, rs.vals, false)
 		}
 	}
+	x.flushPanics(fr)
+}
+
+// flushPanics runs the deferred calls and checks the on_panic clauses on the panic exits collected so far (called at
+// the end of the function and before every scope cut, while the facts of the epoch of those exits are in scope).
+func (x *Exec) flushPanics(fr *Frame) {
+	con := fr.con
 	if len(fr.panics) > 0 {
 		// deferred calls run on the panic paths too (their preconditions and effects are checked there);
 		// one path at a time while there are few of them (a merged panic state is a large case split for the solver)
@@ -1040,6 +1048,7 @@ func (x *Exec) finish(fr *Frame) {
 			}
 		}
 	}
+	fr.panics = nil
 }
 
 func (x *Exec) obligeNoAssume(fr *Frame, st *State, class, detail string, tags []string, goal *Term, text string) *Obligation {
@@ -1502,6 +1511,11 @@ func (x *Exec) cutIteration(fr *Frame, L *Loop, st *State, spec *LoopSpec, iter 
 		// solver context (obligations already generated keep their own fact lists)
 		if snap.clk == nil {
 			snap.clk = st.clk
+		}
+		if fr.depth == 0 {
+			savedPC, savedPos := x.curPC, x.curPos
+			x.flushPanics(fr) // panic exits of the iteration just finished are checked with that iteration's facts
+			x.curPC, x.curPos = savedPC, savedPos
 		}
 		x.scopeCut(snap)
 	}
